@@ -152,7 +152,10 @@ func (b *Build) copyTree(dst string, rewrite bool) error {
 		}
 		rel, _ := filepath.Rel(b.Repo, p)
 		if rel == ".git" {
-			return filepath.SkipDir
+			if d.IsDir() {
+				return filepath.SkipDir
+			}
+			return nil // a worktree's .git is a file
 		}
 		out := filepath.Join(dst, rel)
 		if d.IsDir() {
